@@ -1,0 +1,30 @@
+//go:build verif
+
+// Contracts for package wal, read by the govc verifier (/verif). Comments only.
+package wal
+
+// Appender vocabulary: the i-th append (Append or AppendSync) on log w returns walErr(w,i) and carried the record
+// content walRec(w,i); walSync(w,i) tells whether it was a synchronous append. walCount(w) appends were made so far.
+// walRot(w) counts rotations.
+
+//@ ghost walCount(w Ref) Int
+//@ ghost walRot(w Ref) Int
+//@ spec func walErr(w Ref, i Int) Err
+//@ spec func walRec(w Ref, i Int) Bytes
+//@ spec func walSync(w Ref, i Int) Bool
+
+//@ iface WriteAheadLogAppendI.Append
+//@   ensures [step] walCount(this) == old(walCount(this)) + 1
+//@   ensures [err] r0 == walErr(this, old(walCount(this)))
+//@   ensures [rec] walRec(this, old(walCount(this))) == content(record) && !walSync(this, old(walCount(this)))
+//@   modifies walCount(this)
+
+//@ iface WriteAheadLogAppendI.AppendSync
+//@   ensures [step] walCount(this) == old(walCount(this)) + 1
+//@   ensures [err] r0 == walErr(this, old(walCount(this)))
+//@   ensures [rec] walRec(this, old(walCount(this))) == content(record) && walSync(this, old(walCount(this)))
+//@   modifies walCount(this)
+
+//@ iface WriteAheadLogAppendI.Rotate
+//@   ensures [step] walRot(this) == old(walRot(this)) + 1
+//@   modifies walRot(this)
